@@ -306,8 +306,10 @@ class DictWrapper:
 
             tree = Tree.load(file_path, mapper=DictWrapper.deserialize_mapper)
         """
-        # `data_id` and `kind` are reserved entries that are evaluated by nutree
-        values = {k: v for k, v in data.items() if k not in ("data_id", "kind")}
+        # `data_id` (and `kind` in a typed tree) are reserved entries that are
+        # evaluated by nutree
+        reserved = ("data_id", "kind") if hasattr(nutree_node, "kind") else ("data_id",)
+        values = {k: v for k, v in data.items() if k not in reserved}
         return cls(**values)
 
 
